@@ -93,8 +93,15 @@ Definition cy_order_fields (o : opts) (fs : list field) : option (list name) :=
 Definition hash_flag (f : field) : bool :=
   match f_hash f with None => f_cmp f | Some b => b end.
 
-Definition cy_hash_names (fs : list field) : list name :=
-  names (filter (fun f => negb (f_initvar f) && hash_flag f) fs).
+(* generate_hash_code tests `field.hash.value is None`, but the value of a NoneNode is the
+   string "Py_None": the test never succeeds and a field whose hash flag is unspecified is
+   hashed whatever its compare flag says.  hx = true is the repaired test (hash.is_none). *)
+Definition cy_hash_flag (hx : bool) (f : field) : bool :=
+  if hx then hash_flag f
+  else match f_hash f with Some b => b | None => true end.
+
+Definition cy_hash_names (hx : bool) (fs : list field) : list name :=
+  names (filter (fun f => negb (f_initvar f) && cy_hash_flag hx f) fs).
 
 Inductive action := ANothing | ASetNone | AAdd | ARaise.
 
@@ -114,9 +121,9 @@ Inductive hashres := HKeep | HSetNone | HAdd (ns : list name) | HErr.
 Definition hash_of_action (a : action) (ns : list name) : hashres :=
   match a with ANothing => HKeep | ASetNone => HSetNone | AAdd => HAdd ns | ARaise => HErr end.
 
-Definition cy_hash (o : opts) (u : user) (fs : list field) : hashres :=
+Definition cy_hash (hx : bool) (o : opts) (u : user) (fs : list field) : hashres :=
   hash_of_action (cy_hash_action (o_unsafe_hash o) (o_eq o) (o_frozen o) (cy_explicit_hash u))
-                 (cy_hash_names fs).
+                 (cy_hash_names hx fs).
 
 (* generate_match_args: every field unless the decorator says kw_only (Field has no kw_only
    attribute, so the hasattr test is always false); init is not consulted *)
@@ -150,7 +157,7 @@ Definition is_herr (h : hashres) : bool := match h with HErr => true | _ => fals
 Definition cy_rejected (o : opts) (u : user) (fs : list field) : bool :=
   existsb (fun f => is_some (f_kw f)) fs
   || is_sigerr (cy_init_sig o u fs)
-  || is_herr (cy_hash o u fs).
+  || is_herr (cy_hash true o u fs).
 
 (* ------------------------------------------------------------------ dataclasses.py *)
 
@@ -264,9 +271,9 @@ Record decisions := mkDec {
   d_post : option (list name)
 }.
 
-Definition cy_decide (o : opts) (u : user) (fs : list field) : decisions :=
+Definition cy_decide (hx : bool) (o : opts) (u : user) (fs : list field) : decisions :=
   mkDec (cy_rejected o u fs) (cy_init_sig o u fs) (cy_repr_fields o u fs) (cy_eq_fields o u fs)
-        (cy_order_fields o fs) (cy_hash o u fs) (cy_match_args o u fs) (cy_body fs)
+        (cy_order_fields o fs) (cy_hash hx o u fs) (cy_match_args o u fs) (cy_body fs)
         (post_init_args u fs).
 
 Definition py_decide (o : opts) (u : user) (fs : list field) : decisions :=
